@@ -172,6 +172,14 @@ theorem table_has_mutating_rows_of_every_kind :
     (∃ row ∈ table, row.mutates = true ∧ row.kind = .self) := by
   decide +kernel
 
+/-- **Replay records are deleted at server start only.**  Every call of `prune_database` – the
+only code that deletes CSRF replay records – found anywhere under dashlive/ is the one in
+`create_app` … -/
+theorem prune_only_at_server_start : pruneSites.all (fun p => p.startup) = true := by decide
+
+/-- … and no request handler reaches one (login, logout, token refresh included). -/
+theorem no_handler_prunes : ∀ row ∈ table, row.prunes = false := by decide +kernel
+
 /-- CSRF service names are pairwise suffix-free (needed because HMAC input is a plain
 concatenation `cookie ‖ service ‖ …`) -/
 theorem services_suffix_free :
@@ -182,10 +190,13 @@ end DashLive.Auth
 
 namespace DashLive.Csrf
 
-/-- **At most once.**  In any history without a prune (server restart) step, starting from
-any state, a token is accepted at most once – whatever services, cookies and origins the
-checks name, and including tokens whose first presentation failed the signature test
-(they are consumed by that failure). -/
+/-- **At most once within one server run.**  In any history without a prune step – checks by
+anybody, clock jumps of any size in either direction (`tick`: across the 20-minute record
+lifetime, the JWT lifetimes, …) and any other requests of any user (`request`: logins, logouts,
+token refreshes; they do not touch replay records, `no_handler_prunes`) interleaved in any
+order – starting from any state, a token is accepted at most once, whatever services, cookies
+and origins the checks name, and including tokens whose first presentation failed the
+signature test (they are consumed by that failure). -/
 theorem csrf_at_most_once (c : Cfg) (t : Str) :
     ∀ (evs : List Ev) (st : St), (∀ e ∈ evs, e.isPrune = false) →
       acceptedCount t (run c st evs) ≤ 1 := by
@@ -195,13 +206,16 @@ theorem csrf_at_most_once (c : Cfg) (t : Str) :
   | cons e es ih =>
     intro st hnp
     have hes : ∀ e' ∈ es, e'.isPrune = false := fun e' h' => hnp e' (List.mem_cons_of_mem _ h')
+    have he : e.isPrune = false := hnp e (List.mem_cons_self ..)
     rw [run_cons, acceptedCount_cons]
+    have hother : e.token? = none → ((e, (step c st e).2).1.token? == some t &&
+        (e, (step c st e).2).2 == some Result.accepted) = false := by
+      intro hn; simp [hn]
     cases e with
-    | prune => exact absurd (hnp Ev.prune (List.mem_cons_self ..)) (by simp [Ev.isPrune])
     | check svc ck o t' =>
       by_cases hacc : (t' = t ∧ (check c st svc ck o t').2 = .accepted)
       · obtain ⟨rfl, hacc⟩ := hacc
-        have hu : t' ∈ (step c st (Ev.check svc ck o t')).1.used := by
+        have hu : t' ∈ (step c st (Ev.check svc ck o t')).1.tokens := by
           simp only [step]
           exact check_accepted_records c st svc ck o t' hacc
         rw [acceptedCount_zero_of_used c t' es _ hes hu]
@@ -216,16 +230,70 @@ theorem csrf_at_most_once (c : Cfg) (t : Str) :
           · simp [heq]
         simp only [hz]
         simpa using this
+    | prune => simp [Ev.isPrune] at he
+    | pruneExpired => simp [Ev.isPrune] at he
+    | tick n =>
+      rw [hother rfl]
+      simpa using ih _ hes
+    | request =>
+      rw [hother rfl]
+      simpa using ih _ hes
 
-/-- non-vacuity of `csrf_at_most_once`: a prune-free history in which the bound is attained
+/-- non-vacuity of `csrf_at_most_once`: a prune-free history – with a clock jump of a day and
+another user's request between the two presentations – in which the bound is attained
 (first presentation accepted, the second one refused as a re-use) -/
 example :
     let c : Cfg := { mac := fun m => '#' :: m, strictOrigin := false }
     let t : Str := issue c "streams".toList "K".toList [] "12345678".toList
-    let evs : List Ev := [.check "streams".toList (some "K".toList) [] t,
+    let evs : List Ev := [.check "streams".toList (some "K".toList) [] t, .tick 86400, .request,
                           .check "streams".toList (some "K".toList) [] t]
     (∀ e ∈ evs, e.isPrune = false) ∧ acceptedCount t (run c St.empty evs) = 1 := by
   decide
+
+/-- **Within a run no operation other than a prune removes a replay record**: checks, clock
+jumps and other requests keep every record, live or expired … -/
+theorem records_survive_run (c : Cfg) :
+    ∀ (evs : List Ev) (st : St), (∀ e ∈ evs, e.isPrune = false) →
+      ∀ p ∈ st.used, p ∈ (final c st evs).used := by
+  intro evs
+  induction evs with
+  | nil => intro st _ p hp; exact hp
+  | cons e es ih =>
+    intro st hnp p hp
+    exact ih _ (fun e' h' => hnp e' (List.mem_cons_of_mem _ h')) p
+      (step_records_mono c st e (hnp e (List.mem_cons_self ..)) p hp)
+
+/-- … and even `prune_database(all_csrf=False)` keeps the records that are still live. -/
+theorem pruneExpired_keeps_live (st : St) (p : Str × Nat) (hp : p ∈ st.used) (hlive : st.now ≤ p.2) :
+    p ∈ (pruneExpired st).used := by
+  unfold pruneExpired
+  simp only [List.mem_filter]
+  refine ⟨hp, ?_⟩
+  simp only [Bool.not_eq_true', decide_eq_false_iff_not]
+  omega
+
+/-- **Negative result: why no handler may prune.**  The token carries no timestamp, so once
+the clock has passed the record's expiry (`now + 20 min`) a `prune_database(all_csrf=False)`
+deletes the record and the identical token, with its original cookie, is accepted again – in
+the same server run.  (A handler that prunes is what `no_handler_prunes` excludes.) -/
+theorem csrf_reuse_after_expiry_prune (c : Cfg) (st : St) (svc : Str) (ck : Option Str) (o t : Str)
+    (h : (check c st svc ck o t).2 = .accepted) (n : Nat) (hn : st.now + recordLifetime < n) :
+    (check c (pruneExpired { (check c st svc ck o t).1 with now := n }) svc ck o t).2 = .accepted := by
+  obtain ⟨k, hk, hk2, hu, hs⟩ := (check_accepted_iff c st svc ck o t).1 h
+  rw [check_accepted_iff]
+  refine ⟨k, hk, hk2, ?_, hs⟩
+  subst hk
+  have hu' : t ∉ List.map Prod.fst st.used := hu
+  unfold check
+  simp only [hk2, hu, hs, if_false, if_true]
+  intro hmem
+  simp only [pruneExpired, St.tokens, List.mem_map, List.mem_filter] at hmem
+  obtain ⟨p, ⟨hp, hlive⟩, hpt⟩ := hmem
+  simp only [List.mem_cons] at hp
+  rcases hp with rfl | hp
+  · simp at hlive
+    omega
+  · exact hu' (List.mem_map.2 ⟨p, hp, hpt⟩)
 
 /-- **At most once, on the wire.**  `CsrfProtection.check` decodes the submitted text with
 `unquote` before anything else and the consumed-token identity is the decoded token.  So for
@@ -240,9 +308,7 @@ theorem csrf_at_most_once_wire (c : Cfg) (t : Str) (evs : List WireEv) (st : St)
   intro e he
   obtain ⟨w, hw, rfl⟩ := List.mem_map.1 he
   have := h w hw
-  cases w with
-  | prune => simp [WireEv.isPrune] at this
-  | check svc ck o wire => rfl
+  cases w <;> simp_all [WireEv.isPrune, WireEv.decode, Ev.isPrune]
 
 /-- two spellings of one token share one replay record: once a text decoding to `t` has been
 accepted (or has failed the signature test), no text with the same decoding is accepted,
@@ -476,7 +542,7 @@ theorem csrf_needs_cookie (c : Cfg) (st : St) (svc : Str) (ck : Option Str) (o t
 /-- non-vacuity of the whole protocol: a freshly issued token is accepted when presented
 with the service, cookie and origin it was issued for -/
 theorem csrf_fresh_accepted (c : Cfg) (i : Issued) (hsalt : saltLen ≤ i.salt.length)
-    (hck : i.cookie ≠ []) (st : St) (hfresh : i.token c ∉ st.used) :
+    (hck : i.cookie ≠ []) (st : St) (hfresh : i.token c ∉ st.tokens) :
     (check c st i.service (some i.cookie) i.origin (i.token c)).2 = .accepted := by
   rw [check_accepted_iff]
   refine ⟨i.cookie, rfl, hck, hfresh, ?_⟩
@@ -494,7 +560,7 @@ theorem csrf_reuse_after_prune (c : Cfg) (st : St) (svc : Str) (ck : Option Str)
     (check c (prune (check c st svc ck o t).1) svc ck o t).2 = .accepted := by
   obtain ⟨k, hk, hk2, _, hs⟩ := (check_accepted_iff c st svc ck o t).1 h
   rw [check_accepted_iff]
-  exact ⟨k, hk, hk2, by simp [prune], hs⟩
+  exact ⟨k, hk, hk2, by simp [prune, St.tokens], hs⟩
 
 /-- so `csrf_at_most_once` cannot be extended to histories with a prune step: a concrete
 history `check; prune; check` in which one token is accepted twice -/
